@@ -15,30 +15,43 @@ ROUTES = ("attr", "dotted", "ctor", "load_tree", "loads")
 DKEYS = ("k", "a.b")
 
 
-def _build(friendly: bool):
-    nm = "Friendly" if friendly else None
+def _item_schema(nm, with_dd=True):
     item = Schema()
     item.v = IntField(min=0, default=0, name=nm)
-    item.dd = DictField(StringField(), IntField(min=0), default=lambda: {})
-    item_t = Schema()
-    item_t.v = IntField(min=0, default=0, name=nm)
-    item_t.dd = DictField(StringField(), IntField(min=0), default=lambda: {})
-    Item = make_type_nt(item_t, "Item")
-    plain_t = Schema()
-    plain_t.v = IntField(min=0, default=0, name=nm)
-    Plain = make_type_nt(plain_t, "Plain")
+    if with_dd:
+        item.dd = DictField(StringField(), IntField(min=0), default=lambda: {})
+    return item
+
+
+def _build(friendly: bool, pos: str = "*"):
+    """Only the part of the schema that position `pos` needs ('*' = everything): building fields is
+    the dominant per-path cost under the symbolic executor."""
+    nm = "Friendly" if friendly else None
+    top = pos.split(".")[0]
+    Item = None
     schema = Schema()
     schema.a = IntField(min=0, default=0, name=nm)
-    schema.s.b = IntField(min=0, default=0, name=nm)
-    schema.s.t.c = IntField(min=0, default=0, name=nm)
-    schema.ct = Item
-    schema.s.ct2 = Item
-    schema.items = ListField(item, default=lambda: [])
-    schema.titems = ListField(Item, default=lambda: [])
-    schema.pitems = ListField(Plain, default=lambda: [])
-    schema.s.items2 = ListField(item, default=lambda: [])
-    schema.d = DictField(StringField(), IntField(min=0), default=lambda: {}, name=nm)
-    schema.s.d2 = DictField(StringField(), IntField(min=0), default=lambda: {}, name=nm)
+    if top in ("s", "*"):
+        schema.s.b = IntField(min=0, default=0, name=nm)
+        schema.s.t.c = IntField(min=0, default=0, name=nm)
+    if pos in ("ct.v", "ct", "s.ct2.v", "titems", "titems.dd", "*"):
+        Item = make_type_nt(_item_schema(nm), "Item")
+    if pos in ("ct.v", "ct", "*"):
+        schema.ct = Item
+    if pos in ("s.ct2.v", "*"):
+        schema.s.ct2 = Item
+    if pos in ("items", "items.dd", "items_item", "*"):
+        schema.items = ListField(_item_schema(nm), default=lambda: [])
+    if pos in ("titems", "titems.dd", "*"):
+        schema.titems = ListField(Item, default=lambda: [])
+    if pos in ("pitems", "*"):
+        schema.pitems = ListField(make_type_nt(_item_schema(nm, False), "Plain"), default=lambda: [])
+    if pos in ("s.items2", "*"):
+        schema.s.items2 = ListField(_item_schema(nm), default=lambda: [])
+    if pos in ("d", "*"):
+        schema.d = DictField(StringField(), IntField(min=0), default=lambda: {}, name=nm)
+    if pos in ("s.d2", "*"):
+        schema.s.d2 = DictField(StringField(), IntField(min=0), default=lambda: {}, name=nm)
     return schema, Item
 
 
@@ -60,7 +73,7 @@ def _run(pos: str, route_i: int, bad_i: int, n: int, i: int, ki: int, friendly: 
     route = _pick(ROUTES, route_i)
     bad = _pick(BAD, bad_i)
     key = _pick(DKEYS, ki)
-    schema, Item = _build(friendly)
+    schema, Item = _build(friendly, pos)
     mem = MemStore()
     # ---- oracle path and the tree that carries the offending value
     if pos == "a":
@@ -210,7 +223,7 @@ def reject_wrong_shape(pos_i: int, route_i: int, bad_i: int) -> bool:
     bad = _pick(WRONG, bad_i)
     if route == "dotted":
         skip("same code path as attr for one-segment keys")
-    schema, Item = _build(False)
+    schema, Item = _build(False, pos)
     mem = MemStore()
     if pos == "items_item":
         if bad is None or isinstance(bad, list):
